@@ -1,10 +1,12 @@
 #include <AIToolbox/Factored/MDP/CooperativeMaximumLikelihoodModel.hpp>
 
+#include <AIToolbox/Seeder.hpp>
 #include <AIToolbox/Utils/Probability.hpp>
 
 namespace AIToolbox::Factored::MDP {
     CooperativeMaximumLikelihoodModel::CooperativeMaximumLikelihoodModel(const CooperativeExperience & exp, const double discount, const bool toSync)
-            : experience_(exp), discount_(discount), transitions_({experience_.getGraph(), {}})
+            : experience_(exp), discount_(discount), transitions_({experience_.getGraph(), {}}),
+              rand_(Seeder::getSeed())
     {
         setDiscount(discount);
 
